@@ -238,7 +238,8 @@ def proof_obligations(pid):
 TRANSLATORS = {"scoring": ([("ScoringGen.v", "scoring")], "ScoringGenProof.v"),
                "copeland": ([("CopelandGen.v", "copeland")], "CopelandGenProof.v"),
                "stv": ([("ScoringGen.v", "scoring"), ("StvGen.v", "stv")], "StvGenProof.v"),
-               "elicitor": ([("ElicitorGen.v", "elicitor")], "ElicitorGenProof.v")}
+               "elicitor": ([("ElicitorGen.v", "elicitor")], "ElicitorGenProof.v"),
+               "bsearch": ([("BsearchGen.v", "bsearch")], "BsearchGenProof.v")}
 
 def translator_obligation(name):
     """regenerate the model of <name> from /repo's current source (harness/translate.py), compile it, and re-check the
